@@ -324,10 +324,18 @@ func (w *world) doBatch(op opT) string {
 			}
 		}
 	}
+	reservedOnly := map[int]bool{} // racy clients that sent a RESERVE in the batch
 	for k := range racy {
+		reservedOnly[k] = reserved[k]
 		reserved[k] = true // applyDisc: uncertain instead of removed
 	}
 	w.applyDisc(gone, reserved)
+	for _, k := range sortedKeys(racy) {
+		if reservedOnly[k] {
+			w.racedDisc[k] = true
+			out += w.probeConnectTo(k)
+		}
+	}
 	if len(seen) > 0 {
 		out += fmt.Sprintf(" disconnected=%v", sortedKeys(seen))
 	}
